@@ -315,3 +315,34 @@ package vuego
 
 // the deferred closure of interpolate resets the pooled builder before it is returned to the pool
 //@ func (v *Vue) interpolate$1()
+
+// ---- data precedence (C08) ----
+
+//@ spec func structHas(v Val, k string) bool
+//@ spec func structGet(v Val, k string) Val
+//@ spec func passedHas(v Val, k string) bool { isMapStringAny(v) ? (k in mapOf(v)) : structHas(v, k) }
+//@ spec func passedGet(v Val, k string) Val { isMapStringAny(v) ? mapOf(v)[k] : structGet(v, k) }
+
+//@ func toMapData(data) (r)
+//@   trusted
+//@   modifies nothing
+//@   ensures r != nil && (isMapStringAny(data) && mapOf(data) != nil ? r == mapOf(data) : fresh(r))
+//@   ensures forall k string :: ((k in r) == passedHas(data, k)) && ((k in r) ==> r[k] == passedGet(data, k))
+
+//@ func (t *template) Fill(vars) (r)
+//@   modifies t.stack
+//@   ensures C08.fill.fresh: fresh(t.stack) && len(t.stack.stack) == 1 && fresh(t.stack.stack[0]) && t.stack.rootData == vars
+//@   ensures C08.precedence: forall k string ::
+//@     ((k in t.stack.stack[0]) == ((k in t.frontMatter) || passedHas(vars, k) || (k in t.vue.initialData))) &&
+//@     ((k in t.stack.stack[0]) ==> t.stack.stack[0][k] ==
+//@        ((k in t.frontMatter) ? t.frontMatter[k] : (passedHas(vars, k) ? passedGet(vars, k) : t.vue.initialData[k])))
+//@   loop 0 invariant C08.fill.config: fresh(dataMap) && dataMap != nil && forall k string ::
+//@     (visited(k) ==> (k in t.vue.initialData) && (k in dataMap) && dataMap[k] == t.vue.initialData[k]) && (!visited(k) ==> !(k in dataMap))
+//@   loop 1 invariant C08.fill.passed: fresh(dataMap) && dataMap != nil && passedData != dataMap && forall k string ::
+//@     (visited(k) ==> (k in passedData) && (k in dataMap) && dataMap[k] == passedData[k]) &&
+//@     (!visited(k) ==> ((k in dataMap) == (k in t.vue.initialData)) && ((k in dataMap) ==> dataMap[k] == t.vue.initialData[k]))
+//@   loop 1 invariant C08.fill.passed.def: forall k string :: ((k in passedData) == passedHas(vars, k)) && ((k in passedData) ==> passedData[k] == passedGet(vars, k))
+//@   loop 2 invariant C08.fill.front: fresh(dataMap) && dataMap != nil && passedData != dataMap && forall k string ::
+//@     (visited(k) ==> (k in t.frontMatter) && (k in dataMap) && dataMap[k] == t.frontMatter[k]) &&
+//@     (!visited(k) ==> ((k in dataMap) == (passedHas(vars, k) || (k in t.vue.initialData))) &&
+//@        ((k in dataMap) ==> dataMap[k] == (passedHas(vars, k) ? passedGet(vars, k) : t.vue.initialData[k])))
